@@ -21,8 +21,19 @@ struct FakeTimer : event::TimerEvent {
     event::Loop *getLoop() const override { return nullptr; }
     void fire() { if (mode == Mode::kOneshot) on = false; if (cb) cb(); }     // what the loop does when the timer expires
 };
+struct FakeFdEvent : event::FdEvent {
+    FakeFdEvent() : event::FdEvent("vp") {}
+    CallbackFunc cb; int fd = -1; short events = 0; Mode mode = Mode::kPersist; bool on = false;
+    bool initialize(int f, short e, Mode m) override { fd = f; events = e; mode = m; on = false; return true; }
+    void setCallback(CallbackFunc &&c) override { cb = std::move(c); }
+    bool isEnabled() const override { return on; }
+    bool enable() override { on = true; return true; }
+    bool disable() override { on = false; return true; }
+    event::Loop *getLoop() const override { return nullptr; }
+    void fire(short ev) { if (mode == Mode::kOneshot) on = false; if (cb) cb(ev); }
+};
 struct FakeLoop : event::Loop {
-    std::deque<std::pair<RunId, Func>> next_q; RunId last_id = 0; std::vector<FakeTimer*> timers;
+    std::deque<std::pair<RunId, Func>> next_q; RunId last_id = 0; std::vector<FakeTimer*> timers; std::vector<FakeFdEvent*> fdevs;
     void runLoop(Mode) override {} void exitLoop(const std::chrono::milliseconds &) override {}
     bool isInLoopThread() override { return true; } bool isRunning() const override { return true; }
     RunId push(Func f) { next_q.push_back(std::make_pair(++last_id, std::move(f))); return last_id; }
@@ -30,7 +41,7 @@ struct FakeLoop : event::Loop {
     RunId runNext(Func &&f, const std::string &) override { return push(std::move(f)); } RunId runNext(const Func &f, const std::string &) override { return push(f); }
     RunId run(Func &&f, const std::string &) override { return push(std::move(f)); } RunId run(const Func &f, const std::string &) override { return push(f); }
     bool cancel(RunId id) override { for (auto it = next_q.begin(); it != next_q.end(); ++it) if (it->first == id) { next_q.erase(it); return true; } return false; }
-    event::FdEvent *newFdEvent(const std::string &) override { return nullptr; }
+    event::FdEvent *newFdEvent(const std::string &) override { FakeFdEvent *e = new FakeFdEvent; fdevs.push_back(e); return e; }
     event::TimerEvent *newTimerEvent(const std::string &) override { FakeTimer *t = new FakeTimer; timers.push_back(t); return t; }
     event::SignalEvent *newSignalEvent(const std::string &) override { return nullptr; }
     event::Stat getStat() const override { return event::Stat(); } void resetStat() override {}
